@@ -589,7 +589,24 @@ def r04_14(ctx: Ctx) -> None:
                   construct="folder crc waits for tell()")
 
 
+def r04_15(ctx: Ctx) -> None:
+    """testzip() never certifies without having looked: None is its verdict 'every member is good' (the zipfile contract), so every normal
+    way out of the function passes the decode of all folders (`self.worker.extract(..., skip_notarget=False)`); a guard that cannot do the
+    work (wrong mode) leaves by raising, not by `return None`."""
+    tz = shared.szf(ctx, "testzip")
+    cfg = cfg_of(tz.node)
+    ex = [c for c in q.calls(tz) if attr_tail(c) == "extract" and "worker" in norm(c.func.value)]
+    ctx.floor("R04.15", len(ex), 1, "worker.extract call in testzip")
+    ok = cfg.every_path_to_exit_passes(cfg.entry, [q.node_for(tz, c) for c in ex])
+    early = [r for r in walk(tz.node) if isinstance(r, ast.Return) and cfg.reaches(cfg.entry, q.node_for(tz, r), avoid=[q.node_for(tz, c) for c in ex])]
+    ctx.check(ok, "R04.15", tz, early[0] if early else tz.node, "testzip() returns only after every folder has been decoded",
+              "testzip() can return (None = 'no bad member') on a path that decodes nothing" + (f": `{norm(early[0])}` under `{' and '.join(norm(cd) if pol else 'not ' + norm(cd) for cd, pol in q.facts_at(tz, early[0]))}`" if early else "")
+              + ": on an archive opened for appending a damaged existing member is certified as good, where the same bytes opened with 'r' name the bad member",
+              construct="testzip certifies without decoding")
+
+
 def run(ctx: Ctx) -> None:
+    r04_15(ctx)
     r04_14(ctx)
     from . import c11 as _c11
     _c11.r11_7(ctx, rule="R04.13")  # no wrong bytes stay on disk behind a CrcError
